@@ -88,7 +88,7 @@ var propMetas = []*propMeta{
 		LevelText:   "Zero/NaN/Inf pass through with e=0, the early-out thresholds of New and Ldexp are admissible (computed from operand ranges), int16 conversions are in range, and rounding goes through reduce with the Inf guard.",
 		Explanation: "One obligation per construct.",
 		NotDecided:  "exactness, 0.1 <= |frac| < 1"},
-	{ID: "C12", Level: "proof", DesignRef: "DESIGN.md §4 C12, §3 E3",
+	{ID: "C12", Ready: true, Level: "proof", DesignRef: "DESIGN.md §4 C12, §3 E3",
 		Technique:   "static analysis: whole-body shape verification and byte-table extraction of MarshalBinary/UnmarshalBinary (inverse big-endian bijections), bit-field algebra of compose/decompose against the IEEE 754-2008 BID layout, decoding of every Decimal literal",
 		LevelText:   "Proof by exhaustive structural decision: the writer and reader bodies are verified to consist of nothing but a 16-entry byte table each; the tables are inverse big-endian bijections of hi‖lo, hence bit-for-bit round trip for all 2^128 patterns; the length guard precedes every read; compose/decompose fields equal the BID layout for both forms and the form switch is at 2^113; every Decimal literal decodes to the value its constructor claims.",
 		Explanation: "Every obligation must be discharged; obligations = table entries, body shapes, guards, field facts, literals.",
